@@ -88,14 +88,18 @@ func errName(err error) string {
 		return fmt.Sprintf("errno%d", int(se))
 	}
 	switch {
-	case errors.Is(err, fs.ErrClosed):
+	case errors.Is(err, avfs.ErrFileClosing):
+		return "fileclosing"
+	case errors.Is(err, fs.ErrClosed) || strings.HasSuffix(err.Error(), "use of closed file"):
 		return "closed"
+	case strings.HasSuffix(err.Error(), "too many links"):
+		return "ELOOP" // filepath.EvalSymlinks reports its own budget; same error kind
+	case strings.HasSuffix(err.Error(), "negative offset"):
+		return "negoffset"
 	case errors.Is(err, io.EOF):
 		return "EOF"
 	case errors.Is(err, avfs.ErrNegativeOffset):
 		return "negoffset"
-	case errors.Is(err, avfs.ErrFileClosing):
-		return "fileclosing"
 	case errors.Is(err, avfs.ErrPatternHasSeparator) || strings.HasSuffix(err.Error(), "pattern contains path separator"):
 		return "patternsep"
 	case errors.Is(err, fs.ErrInvalid):
